@@ -10,7 +10,7 @@ CLAIM = {
             'pattern (constructor arguments of the static RegExp objects).',
     'note': 'Only the reference-decoding clause of the property is decided. Undecided: the tree-building state machine, attribute '
             'parsing, path lookup, memory safety on arbitrary bytes.',
-    'technique': 'table agreement: replacement alphabet vs. pattern first-characters, plus loop restart offset (AST of static initialisers and call arguments)',
+    'technique': 'table agreement: replacement alphabet vs. pattern first-characters, plus loop restart offset (AST of static initialisers and call arguments); offset-parameter agreement; container comparator type facts',
 }
 UNITS = ['runtime/xml.cpp']
 EXPLANATION = (
